@@ -408,9 +408,12 @@ Accept(n, lvl) == LET b == Thin[IF lvl <= Len(Thin) THEN lvl ELSE Len(Thin)]
 Unused(ns) == {i \in (NL + 1)..Len(ns) :
                  ~\E j \in (i + 1)..Len(ns) : \E q \in 1..Len(ns[j].kids) : ns[j].kids[q] = i}
 Useful(n) == (NOps(nodes) + 1 = MaxOps) => Unused(nodes) \subseteq SeqToSet(n.kids)
-Try(n) == /\ Useful(n)
-          /\ Accept(n, NOps(nodes) + 1)
-          /\ LET ns == Append(nodes, n) IN Admissible(ns) /\ nodes' = ns /\ UNCHANGED done
+\* The guards are evaluated as ONE boolean (IF condition): written as conjuncts of the action, TLC would
+\* split on every disjunction inside them (2^(rows x points) evaluations of the same successor).
+Try(n) == LET ns == Append(nodes, n) IN
+          IF Useful(n) /\ Accept(n, NOps(nodes) + 1) /\ Admissible(ns)
+          THEN nodes' = ns /\ UNCHANGED done
+          ELSE FALSE
 
 AddUnary == CanAdd /\ \E o \in UnOps, a \in Idx :
                IF o = "PowerConstant"
